@@ -21,7 +21,7 @@ pub fn gen_medium_op(rng: &mut Rng) -> Op {
     let mut lit = (rng.below(1 << 16) as u32).to_le_bytes().to_vec();
     lit.push(rng.next() as u8);
     match rng.below(10) {
-        0..=4 => Op::new("med.serde").a(slot(rng)).dst(slot(rng)).c(pool).form(rng.below(3)).m(fault).lit(lit),
+        0..=4 => Op::new("med.serde").a(slot(rng)).dst(slot(rng)).c(if rng.chance(1, 5) { 6 + rng.below(2) } else { pool }).form(rng.below(3)).m(fault).lit(lit),
         5 | 6 => Op::new("med.twin").a(slot(rng)).b(slot(rng)).dst(slot(rng)).c(2 + rng.below(4)).form(rng.below(3)).n(rng.below(9) as i64).m(rng.below(60) as i64),
         7 if rng.chance(1, 2) => {
             let exp = match rng.below(6) {
